@@ -40,7 +40,7 @@ func init() { core.Register(prop{}) }
 func (prop) ID() string    { return "C15" }
 func (prop) Level() string { return "exploration" }
 func (prop) Rule() string {
-	return "scenario = one client exchange through a proxying service configured with a forward director: http-proxy (sequences of 1..3 generated requests: methods, targets, 0..10 headers incl. repeated names, bodies 0..64 KiB with content-length or chunked; lock-step and pipelined, every single cut point for short streams, sampled cuts beyond; backend replies with bodies 0..64 KiB written in seeded chunks), ssh-proxy (password accepted/rejected by the backend, env/pty-req/exec/shell requests, channel data 0..64 KiB both ways), copy (arbitrary TCP streams and datagrams), dns-proxy (queries and answers); 1..3 concurrent client connections. Oracle: backend-received == client-sent, client-received == backend-sent, one event per relayed request attributed to the client, no connection to the decoy listener. Non-trivial = the backend received >=1 byte; distinct by scenario parameters. Also: a first write that carries complete requests plus the first bytes of the next one, replies awaited before the rest is sent (overlap); copy-tcp clients that half-close before the backend answers; and for the first scenarios of every part a system-call trace of connect(): every connect to an internet address must name a backend. A copy service with one shared forward director listens on tcp and udp (backends with the same port number); copy-both scenarios alternate datagrams and connections through it, udp first in some child processes and tcp first in others. A third of the ssh scenarios make 2..12 password attempts on one proxied connection (the backend turns all but possibly the last one down): every attempt must reach the backend, in order, and give one event. http-drop: the backend reads the last request of a lock-step sequence and closes without answering; every request the backend received must have its event. dns queries vary the question type and include a bare header, a question-less message with an OPT record, two questions and opcode STATUS."
+	return "scenario = one client exchange through a proxying service configured with a forward director: http-proxy (sequences of 1..3 generated requests: methods, targets, 0..10 headers incl. repeated names, bodies 0..64 KiB with content-length or chunked; lock-step and pipelined, every single cut point for short streams, sampled cuts beyond; backend replies with bodies 0..64 KiB written in seeded chunks), ssh-proxy (password accepted/rejected by the backend, env/pty-req/exec/shell requests, channel data 0..64 KiB both ways), copy (arbitrary TCP streams and datagrams), dns-proxy (queries and answers); 1..3 concurrent client connections. Oracle: backend-received == client-sent, client-received == backend-sent, one event per relayed request attributed to the client, no connection to the decoy listener. Non-trivial = the backend received >=1 byte; distinct by scenario parameters. Also: a first write that carries complete requests plus the first bytes of the next one, replies awaited before the rest is sent (overlap); copy-tcp clients that half-close before the backend answers; and for the first scenarios of every part a system-call trace of connect(): every connect to an internet address must name a backend. A copy service with one shared forward director listens on tcp and udp (backends with the same port number); copy-both scenarios alternate datagrams and connections through it, udp first in some child processes and tcp first in others. A third of the ssh scenarios make 2..12 password attempts on one proxied connection (the backend turns all but possibly the last one down): every attempt must reach the backend, in order, and give one event. http-drop: the backend reads the last request of a lock-step sequence and closes without answering; every request the backend received must have its event. The dns backend's answers are the transformed query followed by 0..65000 further bytes (totals of exactly 512, 513, 4096, 4097 bytes among them; the length follows from the query id). dns queries vary the question type and include a bare header, a question-less message with an OPT record, two questions and opcode STATUS."
 }
 func (prop) Assumptions() []string {
 	return []string{"differences HTTP intermediaries may make are not violations: order between different header names, chunked <-> content-length re-framing with identical body, header-name case", "a header the client did not send that appears at the backend is reported under its own signature"}
@@ -192,6 +192,42 @@ type udpBackend struct {
 	c   *net.UDPConn
 	mu  sync.Mutex
 	got [][]byte
+	// long: answers are the transformed request followed by 0..65000 more bytes (a name server answering a
+	// client that advertises a large EDNS0 buffer); the length is a function of the request alone
+	long bool
+}
+
+// answerTo is what a backend sends back for a datagram: the transformed request and, for a backend with long
+// answers, a run of further bytes whose number follows from the request's first two bytes (the query id):
+// totals of exactly 512, 513, 4096 and 4097 bytes and lengths up to the largest datagram among them.
+func answerTo(req []byte, long bool) []byte {
+	o := xform(req)
+	if !long || len(req) < 2 {
+		return o
+	}
+	more := 0
+	switch v := (int(req[0])<<8 | int(req[1])) % 12; v {
+	case 1:
+		more = 512 - len(req)
+	case 2:
+		more = 513 - len(req)
+	case 3:
+		more = 4096 - len(req)
+	case 4:
+		more = 4097 - len(req)
+	case 5:
+		more = 1400
+	case 6:
+		more = 9000
+	case 7:
+		more = 30000
+	case 8:
+		more = 65000
+	}
+	for i := 0; i < more; i++ {
+		o = append(o, byte(i*7+int(req[1])))
+	}
+	return o
 }
 
 func (b *udpBackend) serve() {
@@ -204,7 +240,7 @@ func (b *udpBackend) serve() {
 		b.mu.Lock()
 		b.got = append(b.got, append([]byte(nil), buf[:n]...))
 		b.mu.Unlock()
-		b.c.WriteToUDP(xform(buf[:n]), addr)
+		b.c.WriteToUDP(answerTo(buf[:n], b.long), addr)
 	}
 }
 
@@ -467,7 +503,7 @@ func setup(seed int64) (*env, error) {
 	uc, _ := net.ListenUDP("udp", &net.UDPAddr{IP: net.ParseIP("127.0.0.1")})
 	e.ub = &udpBackend{c: uc}
 	dc, _ := net.ListenUDP("udp", &net.UDPAddr{IP: net.ParseIP("127.0.0.1")})
-	e.db = &udpBackend{c: dc}
+	e.db = &udpBackend{c: dc, long: true}
 	_, priv, _ := ed25519.GenerateKey(rand.Reader)
 	signer, _ := ssh.NewSignerFromKey(priv)
 	e.sb = &sshBackend{l: listenTCP(), signer: signer, accept: func(u, p string) bool { return strings.HasPrefix(p, "ok-") }}
@@ -915,8 +951,12 @@ func (e *env) runUDP(sc scenario, ob *obs, dns bool) {
 	}
 	be.mu.Unlock()
 	reps := x.Snapshot()
-	if len(reps) != 1 || !bytes.Equal(reps[0], xform(pl)) {
-		ob.bad(kind+"|reply", "client received %d reply datagram(s); expected exactly the backend's answer", len(reps))
+	if ans := answerTo(pl, dns); len(reps) != 1 || !bytes.Equal(reps[0], ans) {
+		got := -1
+		if len(reps) > 0 {
+			got = len(reps[0])
+		}
+		ob.bad(kind+"|reply", "client received %d reply datagram(s) (the first of %d bytes); expected exactly the backend's answer of %d bytes", len(reps), got, len(ans))
 	}
 	lab.Events.Settle(2*time.Millisecond, 15*time.Millisecond)
 	n := 0
